@@ -414,4 +414,192 @@ def k5(ctx, kr):
     kr.exhaustive = True
     kr.outside = ['signs in expressions (unary minus: C01-K1), real literals']
 
-KERNELS = [k3a, k2, k3b, k4, k5]
+
+# ---------------------------------------------------------------------------------------------- K6 character strings, character by character
+STRING_CTX = {
+    'variable_initial_value': ('PROGRAM p\nVAR\n  x : STRING := ', ';\nEND_VAR\nEND_PROGRAM\n', 'StringInitializer', 2),
+    'expression_constant': ('PROGRAM p\nVAR\n  x : STRING;\nEND_VAR\n  x := ', ';\nEND_PROGRAM\n', 'CharacterStringLiteral', 0),
+    'typed_constant': ('PROGRAM p\nVAR\n  x : STRING;\nEND_VAR\n  x := STRING#', ';\nEND_PROGRAM\n', 'CharacterStringLiteral', 0),
+}
+
+def _k6_job(job):
+    cname, n, quote, multibyte = job
+    from . import C10 as K10
+    ctx = _CTX; part = Part()
+    pre, post, node_name, fidx = STRING_CTX[cname]
+    if quote == '"': pre = pre.replace('STRING', 'WSTRING')
+    P = ctx.program()
+    k_parse = P.find_fn('ironplc-parser', 'parse_program')
+    k_opt = [k for k in P.items if k[0] == 'ironplc-parser' and re.search(r'ParseOptions as (std::default::)?Default>::default|options::<impl at [^>]*>::default', k[1])]
+    holder = {}; st = {}
+    M = Machine(P, stubs=K10.dyn_lexer_stubs(ctx, holder), max_steps=400_000_000)
+    q = ord(quote)
+    def entry(M):
+        bs = []
+        for i in range(n):
+            b = M.fresh_bv('c%d' % i, 8); bs.append(b)
+        if multibyte:
+            # one two-byte character (U+0080..U+07FF) followed by ASCII characters
+            M.assume(z3.And(z3.UGE(bs[0], 0xC2), z3.ULE(bs[0], 0xDF), z3.UGE(bs[1], 0x80), z3.ULE(bs[1], 0xBF)))
+            rest = bs[2:]
+        else: rest = bs
+        for b in rest: M.assume(z3.And(z3.UGE(b, 0x20), z3.ULE(b, 0x7E), b != q, b != 0x24))      # printable ASCII except the literal's own delimiter and the escape character $
+        st['bs'] = bs
+        text = list(pre.encode()) + [q] + bs + [q] + list(post.encode())
+        fid = Ref(Cell(Agg('FileId', [Str('f.st')])))
+        opts = Ref(Cell(M.call_fn(k_opt[0], []) if k_opt else Agg('ParseOptions', [False])))
+        r = M.call_fn(k_parse, [Ref(Cell(Str(text))), fid, opts])
+        if r.disc != 0: return None
+        nodes = K10.find_nodes(r.f[0], node_name)
+        if not nodes: return 'no-node'
+        v = nodes[0].f[fidx]
+        if node_name == 'StringInitializer':
+            if v.disc != 1: return 'no-value'
+            v = v.f[0]
+        return v
+    def on_path(M, pr):
+        part.paths += 1
+        if pr.inconclusive: part.inconc('%s: %s' % (cname, pr.inconclusive)); return
+        part.nontrivial += 1
+        s = z3.Solver(); s.add(*pr.pc)
+        bs = st['bs']
+        def lit(m): return bytes(m.eval(b, True).as_long() for b in bs).decode('utf-8', 'replace')
+        def report(role, what, cond):
+            s.push(); s.add(cond); part.queries += 1
+            if s.check() == z3.sat:
+                L = lit(s.model()); src = pre + quote + L + quote + post
+                part.add(role, '%s %s%s%s: %s' % (cname.replace('_', ' '), quote, L, quote, what), {'literal': L, 'source': src}, ('string_literal', (src, L)))
+            s.pop()
+        if pr.panic: report('C09/K6/%s/panic' % cname, 'the parser panics: ' + pr.panic.msg[:50], z3.BoolVal(True)); return
+        v = pr.result
+        if v is None: report('C09/K6/%s/rejected' % cname, 'a character string literal is rejected', z3.BoolVal(True)); return
+        if isinstance(v, str): part.inconc('%s: %s in the library' % (cname, v)); return
+        chars = v.items if isinstance(v, VecV) else None
+        if chars is None: part.inconc('%s: value of the literal is not a character vector (%r)' % (cname, type(v).__name__)); return
+        # expected characters
+        if multibyte: want = [((z3.ZeroExt(24, bs[0]) & 0x1F) << 6) | (z3.ZeroExt(24, bs[1]) & 0x3F)] + [z3.ZeroExt(24, b) for b in bs[2:]]
+        else: want = [z3.ZeroExt(24, b) for b in bs]
+        if len(chars) != len(want): report('C09/K6/%s/length-altered' % cname, 'is read as %d characters instead of %d' % (len(chars), len(want)), z3.BoolVal(True)); return
+        report('C09/K6/%s/characters-altered' % cname, 'is read with other characters', z3.Or([tobv(c, 32) != w for c, w in zip(chars, want)]))
+        if len(part.validate) < 1 and s.check() == z3.sat:
+            L = lit(s.model()); part.validate.append(('string_literal', (pre + quote + L + quote + post, L)))
+        if len(part.samples) < 1: part.samples.append({'context': cname, 'characters': n, 'quote': quote})
+    M.explore(entry, on_path)
+    part.queries += M.stats['smt']; part.encoded = set(M.encoded); part.models = set(M.models_used)
+    return part
+
+@replay_factory('string_literal')
+def _replay_string_literal(src, L):
+    def rp(ctx):
+        r = ctx.replay({'cmd': 'parse', 'source': src})
+        if 'panic' in r: return True, r
+        if not r.get('ok'): return True, {'literal': L, 'rejected': str(r.get('diag'))[:160]}
+        m = re.search(r'initial_value: Some\(\[(.*?)\]\)', r['debug']) or re.search(r'CharacterStringLiteral \{ value: \[(.*?)\] \}', r['debug'])
+        if not m: return None, {'note': 'no string value in the Debug output'}
+        import ast
+        got = ''.join(ast.literal_eval('"' + c[1:-1].replace('"', '\\"').replace("\\'", "'").replace('\\u{', '\\N{U+') + '"') if not c.startswith("'\\u{") else chr(int(c[4:-2], 16)) for c in re.findall(r"'(?:\\.[^']*|[^'\\])'", m.group(1)))
+        return got != L, {'literal': L, 'parsed': got}
+    return rp
+
+@kernel('K6 parser.character_string_literals')
+def k6(ctx, kr):
+    global _CTX
+    _CTX = ctx
+    kr.bounds = ('a character string literal of 1..3 symbolic characters (printable ASCII except the own delimiter and $; thorough: also one two-byte character first) in single and double quotes as variable initial value, '
+                 'as constant in an expression and with the STRING# / WSTRING# prefix, through parse_program (lexer lifted on the symbolic text): the value has exactly the characters written between the quotes')
+    ns = (2,) if ctx.tier == 'quick' else (1, 2, 3)
+    jobs = [(c, n, q, False) for c in STRING_CTX for n in ns for q in ("'", '"')]
+    jobs += [('variable_initial_value', 3, "'", True)] + ([(c, 3, q, True) for c in STRING_CTX for q in ("'", '"')] if ctx.tier != 'quick' else [])
+    for part in par_map(_k6_job, jobs): merge_part(kr, part)
+    P = ctx.program()
+    kr.functions = fn_paths(P, getattr(kr, '_enc', set()))[:100] + ['ironplc-parser::<TokenType as Logos>::lex (lifted)']
+    kr.exhaustive = True
+    kr.outside = ['$ escapes; characters outside printable ASCII and U+0080..U+07FF; strings longer than 3 characters']
+
+
+# ---------------------------------------------------------------------------------------------- K7 duration units: exact sum of whole part and fraction
+UNIT_SECONDS = {'days': 86400, 'hours': 3600, 'minutes': 60, 'seconds': 1}
+
+def _k7_job(job):
+    unit, nfrac = job
+    ctx = _CTX; part = Part()
+    P = ctx.program(['ironplc-dsl'])
+    cands = [k for k in P.items if k[0] == 'ironplc-dsl' and re.fullmatch(r'time::<impl at [^>]*>::%s' % unit, k[1])]
+    if len(cands) != 1: part.inconc('DurationLiteral::%s: %d candidates' % (unit, len(cands))); return part
+    key = cands[0]
+    M = Machine(P, max_steps=5_000_000); st = {}
+    def entry(M):
+        # narrow variables, zero-extended: the solver sees the constant-zero high bits, which keeps multiply / divide by constants cheap to bit-blast
+        w10 = M.fresh_bv('whole', 10); M.assume(z3.ULT(w10, 1000)); whole = z3.ZeroExt(54, w10)
+        # fraction with nfrac decimal digits: femptos = k * 10^(15 - nfrac)
+        kb = (10 ** nfrac).bit_length()
+        kn = M.fresh_bv('frac', kb); M.assume(z3.ULT(kn, 10 ** nfrac)); k = z3.ZeroExt(64 - kb, kn)
+        femptos = k * (10 ** (15 - nfrac))
+        st['whole'] = whole; st['k'] = k
+        fp = Agg('FixedPoint', [Agg('SourceSpan', [0, 0, Agg('FileId', [Str('')])]), whole, femptos])
+        return M.call_fn(key, [fp])
+    def on_path(M, pr):
+        part.paths += 1
+        if pr.inconclusive: part.inconc('%s: %s' % (unit, pr.inconclusive)); return
+        part.nontrivial += 1
+        s = z3.Solver(); s.add(*pr.pc); s.set('timeout', 120000)
+        whole, k = st['whole'], st['k']
+        def lit(m):
+            w = m.eval(whole, True).as_long(); f = m.eval(k, True).as_long()
+            return 'T#%d.%0*d%s' % (w, nfrac, f, {'days': 'd', 'hours': 'h', 'minutes': 'm', 'seconds': 's', 'milliseconds': 'ms'}[unit])
+        def report(role, what, cond):
+            import framework
+            part.queries += 1
+            t0 = time.time(); r, m, eng = framework.check_arith(list(pr.pc) + [cond]); part.solver_s += time.time() - t0
+            if eng not in part.notes: part.notes.append(eng)
+            if r == z3.unknown: part.inconc('solver unknown (%s)' % unit)
+            if r == z3.sat:
+                L = lit(m)
+                w = m.eval(whole, True).as_long(); f = m.eval(k, True).as_long()
+                want_ns = (w * 10 ** nfrac + f) * (UNIT_SECONDS[unit] * 10 ** 9 if unit != 'milliseconds' else 10 ** 6) // 10 ** nfrac
+                part.add(role, 'duration %s: %s (IEC value %d ns)' % (L, what, want_ns), {'literal': L, 'value_ns': str(want_ns)}, ('duration_value', (L, want_ns)))
+        if pr.panic: report('C09/K7/%s/panic' % unit, 'the constructor panics: ' + pr.panic.msg[:60], z3.BoolVal(True)); return
+        d = pr.result                                   # DurationLiteral { span, interval: time::Duration [ns] }
+        iv = d.f[1]; ns = tobv(iv.f[0], 128)
+        # reference in 128 bits: (whole * 10^nfrac + k) * unit_ns / 10^nfrac, exact because unit_ns * 10^-nfrac is integral for nfrac <= 3 .. 9
+        unit_ns = UNIT_SECONDS[unit] * 10 ** 9 if unit != 'milliseconds' else 10 ** 6
+        tot = z3.ZeroExt(64, whole) * (10 ** nfrac) + z3.ZeroExt(64, k)
+        # ns = tot * unit_ns / 10^nfrac, stated without a division (unit_ns is a multiple of 10^nfrac for the digit counts used; no 128-bit wrap: ns < 2^57)
+        wrong = ns * (10 ** nfrac) != tot * unit_ns
+        report('C09/K7/%s/fraction-value' % unit, 'is read as another value', z3.And(wrong, k != 0))
+        report('C09/K7/%s/whole-value' % unit, 'is read as another value', z3.And(wrong, k == 0))
+        if len(part.validate) < 1 and not part.findings and s.check() == z3.sat:
+            m = s.model(); w = m.eval(whole, True).as_long(); f = m.eval(k, True).as_long()
+            part.validate.append(('duration_value', (lit(m), (w * 10 ** nfrac + f) * unit_ns // 10 ** nfrac)))
+        if len(part.samples) < 1: part.samples.append({'unit': unit, 'fraction_digits': nfrac})
+    M.explore(entry, on_path)
+    part.queries += M.stats['smt']; part.encoded = set(M.encoded); part.models = set(M.models_used)
+    return part
+UNIT_SECONDS['milliseconds'] = None
+
+@replay_factory('duration_value')
+def _replay_duration_value(L, want_ns):
+    def rp(ctx):
+        r = ctx.replay({'cmd': 'parse', 'source': KC.program_with_time(L)})
+        if 'panic' in r: return True, r
+        if not r.get('ok'): return None, {'literal': L, 'rejected': str(r.get('diag'))[:160]}
+        m = re.search(r'interval: Duration \{ seconds: (-?\d+), nanoseconds: (-?\d+)', r['debug'])
+        if not m: return None, {'note': 'no Duration in the Debug output'}
+        got = int(m.group(1)) * 10 ** 9 + int(m.group(2))
+        return got != want_ns, {'literal': L, 'parsed_ns': got, 'iec_value_ns': want_ns}
+    return rp
+
+@kernel('K7 dsl.duration_unit_exactness')
+def k7(ctx, kr):
+    global _CTX
+    _CTX = ctx
+    fr = (1, 3) if ctx.tier == 'quick' else (1, 2, 3, 6)
+    kr.bounds = ('DurationLiteral::{days, hours, minutes, seconds, milliseconds} on every FixedPoint with whole part < 1000 and a fraction of %s decimal digits (all digits symbolic): '
+                 'the interval is exactly (whole + fraction) x unit in nanoseconds' % (list(fr),))
+    for part in par_map(_k7_job, [(u, n) for u in UNIT_SECONDS for n in fr]): merge_part(kr, part)
+    P = ctx.program(['ironplc-dsl'])
+    kr.functions = fn_paths(P, getattr(kr, '_enc', set()))
+    kr.exhaustive = True
+    kr.outside = ['whole parts >= 1000 (range of time::Duration: C04-K2, K3a); fractions with more than %d digits' % max(fr)]
+
+KERNELS = [k3a, k2, k3b, k4, k5, k6, k7]
